@@ -8,7 +8,8 @@ RULE = ("for every generated valid program, every single structural mutation in 
         "(surplus END); delete the END of a program unit; delete or add one parenthesis/bracket in a statement (outside character "
         "context); oracle: the parse does not return a tree. non-trivial = the mutated construct is nested >= 1 deep or named")
 ASSUMPTIONS = ["mutations that leave a valid program are excluded by construction: removing a PROGRAM statement; openers of program "
-               "units; non-block DO (no END of its own)"]
+               "units; non-block DO (no END of its own); a label-DO closed by a labelled CONTINUE (the CONTINUE is a statement of its "
+               "own); a surplus bare END / END PROGRAM line (an empty main program without PROGRAM statement)"]
 TIE_MODULES = ["FparserModel.Block", "FparserModel.Splitline", "FparserModel.Generated.Blocks2008"]
 
 UNITS = {"program", "module", "submodule", "subroutine", "function", "blockdata"}
@@ -43,11 +44,19 @@ def mutations(p, rng, max_paren=12):
         nt = depth >= 1 or named
         oi = b.open.uid if b.open is not None else None
         ci = b.close.uid if b.close is not None else None
-        if b.cons not in UNITS and oi is not None:
+        ct0 = [t.upper() for t in b.close.toks] if b.close is not None else []
+        # a labelled CONTINUE that closes a label-DO is a valid statement on its own: removing
+        # the DO statement or repeating the CONTINUE leaves a (syntactically) valid program
+        closer_is_stmt = b.cons == "labeldo" and ct0[:1] == ["CONTINUE"]
+        # a surplus bare END / END PROGRAM [name] line is a main program without PROGRAM
+        # statement, i.e. another (empty) program unit, not an ill-nested construct
+        surplus_is_unit = b.cons in UNITS and (ct0 == ["END"] or ct0[:2] == ["END", "PROGRAM"] or ct0[:1] == ["ENDPROGRAM"])
+        if b.cons not in UNITS and oi is not None and not closer_is_stmt:
             yield ("del-opener", b.cons, nt, lines[:oi] + lines[oi + 1:])
         if ci is not None:
             yield ("del-end", b.cons, nt, lines[:ci] + lines[ci + 1:])
-            yield ("dup-end", b.cons, nt, lines[:ci + 1] + [lines[ci]] + lines[ci + 1:])
+            if not closer_is_stmt and not surplus_is_unit:
+                yield ("dup-end", b.cons, nt, lines[:ci + 1] + [lines[ci]] + lines[ci + 1:])
             ct = b.close.toks
             # rename the END name when there is one (last token is a name that equals the opener's)
             nm = b.open.cname if named else None
